@@ -314,4 +314,80 @@ def shape(f):
     return "multi-value" if multi else "single-value"
 
 
-SUBCHECKS = [Limits(), SqlFetchFault(), WsReuse()]
+class KvReadFault(Sub):
+    """LMDB: reading one record fails while a limited REQ is answered - whatever is sent is still the newest matching events"""
+
+    name = "kv-read-fault"
+    examples = {"quick": 240, "thorough": 1920}
+    shards = {"quick": 8, "thorough": 16}
+    rule = ("LMDB: 6..20 matching events with distinct timestamps, one filter (single value / two values / two conditions) "
+            "with limit 1..8 or absent, lmdb.Error raised once at the j-th record read (get_event_data) of the stored query; "
+            "oracle: at most min(limit, max_limit) events, none twice, at most one EOSE, and the events sent are exactly the "
+            "len(sent) newest matching ones (a failed read may cut the answer short, never leave a newer match out); "
+            "non-trivial = the fault fired and at least one event was sent")
+
+    def strategy(self, tier):
+        return st.tuples(st.integers(6, 20), st.sampled_from([1, 2, 3, MAX_LIMIT - 1, MAX_LIMIT, MAX_LIMIT + 1, "absent"]),
+                         st.integers(0, 8), st.sampled_from(["kind", "kinds2", "tag", "tag2", "tag+kind", "author"])).map(list)
+
+    def run_case(self, case):
+        return H.run(self._run, case)
+
+    async def _run(self, case):
+        import lmdb
+
+        from nostr_relay.storage import kv
+
+        n, lim, j, shp = case
+        viol = []
+        store = [E.free("%064x" % (i + 1), qgen.PUBS[2], 1 + (i % 2 if shp == "kinds2" else 0), E.T0 + i,
+                        [["t", "a" if (shp != "tag2" or i % 2) else "b"]]) for i in range(n)]
+        # events that do not match but are scanned (rejected by the residual matcher)
+        noise = [E.free("%064x" % (0x100 + i), qgen.PUBS[2], 2, E.T0 + i, [["t", "a"]]) for i in range(0, n, 3)] if shp == "tag+kind" else []
+        f = {"kind": {"kinds": [1]}, "kinds2": {"kinds": [1, 2]}, "tag": {"#t": ["a"]}, "tag2": {"#t": ["a", "b"]},
+             "tag+kind": {"#t": ["a"], "kinds": [1]}, "author": {"authors": [qgen.PUBS[2]]}}[shp]
+        if lim != "absent":
+            f["limit"] = lim
+        calls = {"n": -10**9, "fired": False}
+        real = kv.get_event_data
+
+        def faulty(txn, event_id):
+            calls["n"] += 1
+            if calls["n"] - 1 == j and not calls["fired"]:
+                calls["fired"] = True
+                raise lmdb.Error("mdb_get: MDB_PAGE_NOTFOUND: Requested page not found")
+            return real(txn, event_id)
+
+        async with H.Rig("kv", validators=[]) as rig:
+            for ev in store + noise:
+                await rig.add(ev)
+            kv.get_event_data = faulty
+            try:
+                calls["n"] = 0
+                got, eose, err = await rig.req([f])
+            finally:
+                calls["n"] = -10**9
+                kv.get_event_data = real
+            sent = [g["id"] for g in got]
+            newest = [e["id"] for e in sorted(store, key=lambda e: -e["created_at"])]
+            if len(sent) > eff(f):
+                viol.append(V("kv-over-limit-after-read-error", "at most min(n, max_limit) events are sent for a filter",
+                              filter=f, sent=len(sent), allowed=eff(f), fault_at_read=j))
+            elif len(set(sent)) != len(sent):
+                viol.append(V("kv-duplicate-after-read-error", "an event is sent at most once per matching filter", sent=sent))
+            elif set(sent) != set(newest[:len(sent)]):
+                viol.append(V("kv-newer-match-left-out-after-read-error",
+                              "the events sent for a limited filter are the newest matching ones",
+                              filter=f, fault_at_read=j, sent=[i[-4:] for i in sent],
+                              newest=[i[-4:] for i in newest[:len(sent) + 2]]))
+            if eose > 1:
+                viol.append(V("kv-eose-count-after-read-error", "at most one EOSE", eose=eose))
+            # the relay is still usable afterwards and the full answer is back
+            got2, eose2, err2 = await rig.req([f])
+            if [g["id"] for g in got2] != newest[:eff(f)] and not viol:
+                viol.append(V("kv-answer-wrong-after-read-error", "a later REQ is answered in full", filter=f,
+                              got=len(got2), expected=min(len(newest), eff(f))))
+        return Result(viol, calls["fired"] and bool(sent), ["fault-fired" if calls["fired"] else "fault-not-reached", "shape:" + shp])
+
+
+SUBCHECKS = [Limits(), SqlFetchFault(), WsReuse(), KvReadFault()]
